@@ -1,5 +1,6 @@
 import CedarVerif.Lemmas.Ffi
 import CedarVerif.Lemmas.FfiPolicies
+import CedarVerif.Lemmas.FfiPoliciesIds
 /-
 C19 — JSON/FFI, stateful cache and CLI give exactly the API answers.
 
@@ -264,6 +265,28 @@ theorem assemble_authorize (f : FfiPolicySet) (s : ApiPolicySet) (h : assemble f
   rw [this, ← h0]
   exact ⟨rfl, rfl⟩
 
+/-- C19 (assembly): the ids of the set the FFI returns are exactly the ids it assigned: the policies (`policies()` of
+the API, = the core `links`) are the static ids (`policy{n}` by position | the default id per list element | the map
+keys) and the links' `newId`s; the templates (`templates()`) are the keys of the `templates` map; and all these ids are
+pairwise distinct — ANY collision (between two static policies, a template and a policy, a link and anything) is reported
+as an error instead (contrapositive, `assemble_ids_collision`). Via the C08 refinement (`api_op_refines_spec`). -/
+theorem assemble_ids (f : FfiPolicySet) (s : ApiPolicySet) (hs : f.TemplatesHaveSlots) (h : assemble f = .ok s) :
+    (∀ k, (s.policies.get? k).isSome = true ↔ k ∈ staticIds f.staticPolicies ∨ k ∈ f.linkIds) ∧
+    (∀ k, (s.ast.links.get? k).isSome = true ↔ k ∈ staticIds f.staticPolicies ∨ k ∈ f.linkIds) ∧
+    (∀ k, (s.templates.get? k).isSome = true ↔ k ∈ f.templateIds) ∧
+    (staticIds f.staticPolicies ++ f.templateIds ++ f.linkIds).Nodup := by
+  obtain ⟨bs, hb, hnb, hr⟩ := (assemble_ok_iff f s).mp h
+  obtain ⟨h1, h2, h3, h4⟩ := runStrict_ids bs f s hs hnb hr
+  rw [staticAdds_ids _ _ hb] at h1 h2 h4
+  exact ⟨h2, h1, h3, h4⟩
+
+/-- no collision goes unreported: if two of the assigned ids coincide, `ffi::PolicySet::parse` returns errors -/
+theorem assemble_ids_collision (f : FfiPolicySet) (hs : f.TemplatesHaveSlots)
+    (hc : ¬ (staticIds f.staticPolicies ++ f.templateIds ++ f.linkIds).Nodup) : ∃ es, assemble f = .error es := by
+  cases h : assemble f with
+  | error es => exact ⟨es, rfl⟩
+  | ok s => exact absurd (assemble_ids f s hs h).2.2.2 hc
+
 /-! ### non-vacuity: two static policies in the map form (one Cedar text, one EST JSON), one template, two links -/
 
 def demoBody : TemplateBody :=
@@ -291,8 +314,8 @@ example :
 /-- a duplicate link id: exactly one error, `link`'s `PolicyIdConflict`; the other four calls succeeded -/
 example : (match assemble (demoFfi "p1") with | .ok _ => none | .error es => some es) = some [.link .idConflict] := by
   decide +kernel
-/-- the list form gives every Cedar-text element the id "policy0": two elements collide in `from_policies`; the links
-then fail against the EMPTY set's successor (template "t" is added, static part dropped) — here they succeed -/
+/-- the list form gives every Cedar-text element the id "policy0": two elements collide in `from_policies` (reported
+once, the first failing `add` aborts); template and links are then processed from the empty set and, here, succeed -/
 example : (match assemble { demoFfi "l2" with staticPolicies := .set [⟨.cedar, some demoBody⟩, ⟨.cedar, some demoBody⟩] } with
            | .ok _ => none | .error es => some es) = some [.fromPolicies .alreadyDefined] := by
   decide +kernel
